@@ -197,12 +197,14 @@ type Parser struct {
 	currFunc  string
 	usedFuncs map[string][]string // Stores which function (key) calls which functions (values).
 
-	importStack []string // Paths of the files whose imports are currently being resolved.
+	importStack []string        // Paths of the files whose imports are currently being resolved.
+	included    map[string]bool // Files whose code is already part of the program (shared by all parsers of one run).
 }
 
 func New() Parser {
 	return Parser{
 		usedFuncs: map[string][]string{},
+		included:  map[string]bool{},
 	}
 }
 
@@ -666,6 +668,7 @@ func (p *Parser) evaluateProgram() (Program, error) {
 func (p *Parser) evaluateImports(ctx context) ([]Statement, error) {
 	var nextToken lexer.Token
 	statementsTemp := []Statement{}
+	emitTemp := []bool{} // Tells for each statement in statementsTemp if its code is added to the program.
 
 	// Skip empty characters.
 	for {
@@ -730,10 +733,14 @@ func (p *Parser) evaluateImports(ctx context) ([]Statement, error) {
 			}
 			importParser := New()
 			importParser.importStack = append(slices.Clone(p.importStack), p.path)
+			importParser.included = p.included
 
 			if slices.Contains(importParser.importStack, absPath) {
 				return nil, fmt.Errorf(`import cycle: "%s" imports "%s"`, p.path, absPath)
 			}
+			// A file that is reached along several import paths contributes its code only once.
+			emit := !p.included[absPath]
+			p.included[absPath] = true
 			importedProg, err := importParser.parse(absPath, true)
 
 			if err != nil {
@@ -748,7 +755,10 @@ func (p *Parser) evaluateImports(ctx context) ([]Statement, error) {
 			if err != nil {
 				return nil, err
 			}
-			statementsTemp = append(statementsTemp, importedProg.Body()...)
+			for _, statement := range importedProg.Body() {
+				statementsTemp = append(statementsTemp, statement)
+				emitTemp = append(emitTemp, emit)
+			}
 
 			// Import-parser funcs with current parser funcs.
 			for funcName, usedFuncs := range importParser.usedFuncs {
@@ -781,7 +791,7 @@ func (p *Parser) evaluateImports(ctx context) ([]Statement, error) {
 	statements := []Statement{}
 
 	// Add functions add variables.
-	for _, statement := range statementsTemp {
+	for i, statement := range statementsTemp {
 		exists := false
 
 		switch statement.StatementType() {
@@ -805,7 +815,7 @@ func (p *Parser) evaluateImports(ctx context) ([]Statement, error) {
 		}
 
 		// Prevent code duplication.
-		if !exists {
+		if !exists && emitTemp[i] {
 			statements = append(statements, statement)
 		}
 	}
